@@ -39,6 +39,17 @@ SourceSets == {
     << [tiles |-> << <<2,0,0,101>>, <<2,1,2,102>>, <<2,3,1,103>>, <<3,5,5,104>> >>, tc |-> "gzip"],
        [tiles |-> << <<0,0,0,201>>, <<2,1,2,202>>, <<3,5,5,203>>, <<3,6,2,204>> >>, tc |-> "gzip"] >> }
 
+\* the deepest levels: zoom limits at and beyond level 31 (the argument is a u8: 32 and 255 are valid values that select nothing
+\* as a minimum and everything as a maximum) over sources with tiles on levels 30 and 31; zoom filters only (the half-tile
+\* arithmetic of the geographic clauses does not fit TLC's 32-bit integers at level 31)
+ZHigh == {-1, 30, 31, 32, 255}
+HighFilters == { [op |-> "zoom", min |-> a, max |-> b] : a \in ZHigh, b \in ZHigh } \ { [op |-> "zoom", min |-> -1, max |-> -1] }
+HighChains1 == { Wrap(f, b) : f \in HighFilters, b \in Bases }
+HighPrograms == HighChains1 \cup (IF MaxChain >= 2 THEN { Wrap(f, t) : f \in HighFilters, t \in HighChains1 } ELSE {})
+HighSourceSets == {
+    << [tiles |-> << <<2,1,1,101>>, <<30,5,7,102>>, <<31,0,0,103>>, <<31,2147483647,2147483647,104>> >>, tc |-> "none"],
+       [tiles |-> << <<2,1,1,201>>, <<31,0,0,202>>, <<31,2147483646,1,203>> >>, tc |-> "none"] >> }
+
 CovList(tiles) ==
     LET ls == SetToSeq(Levels(tiles)) IN
     [j \in 1..Len(ls) |-> LET h == LevelHull(tiles, ls[j]) IN <<ls[j], h[1], h[2], h[3], h[4]>>]
@@ -47,6 +58,8 @@ WithCov(ss) == [k \in 1..Len(ss) |-> [tiles |-> ss[k].tiles, tc |-> ss[k].tc, co
 Emit(rec) == PrintT(<<"REPLAY", ToJson(rec)>>)
 Init ==
     \/ /\ invalid = 0 /\ tree \in Programs /\ srcsel \in SourceSets
+       /\ Emit([k |-> "pipe", tree |-> tree, invalid |-> 0, sources |-> srcsel])
+    \/ /\ invalid = 0 /\ tree \in HighPrograms /\ srcsel \in HighSourceSets
        /\ Emit([k |-> "pipe", tree |-> tree, invalid |-> 0, sources |-> srcsel])
     \/ /\ invalid = 1 /\ srcsel \in SourceSets
        /\ \E raw \in InvalidRaw, b \in Bases :
